@@ -468,7 +468,7 @@ func (v *VM) execute(context *Context) error {
 		case OpLoad:
 			loaded := v.Args[v.Instructions[v.PC].Args[0]]
 			if !loaded.Value.IsValid() {
-				panic("OpLoad of invalid value")
+				return fmt.Errorf("lambda argument used outside the call that binds it")
 			}
 			v.Stack = append(v.Stack, loaded)
 		case OpCallValue:
